@@ -1,4 +1,5 @@
 import Knut.GoSem.Basic
+import Knut.Syntax.CharClass
 /-!
 # Go strings for the translated code
 
@@ -29,4 +30,42 @@ def ReplaceAll (s old new : String) : String :=
 /-- `%d` / `strconv.Itoa` -/
 @[simp] def itoa (n : Int) : String := toString n
 
+/-- `for i, ch := range s`: the byte offset and the rune of every UTF-8 sequence of a valid string -/
+def runesFrom : Int → List Char → List (Int × Char)
+  | _, [] => []
+  | off, c :: rest => (off, c) :: runesFrom (off + (c.utf8Size : Int)) rest
+
+def runes (s : String) : List (Int × Char) := runesFrom 0 s.toList
+
+/-- `s[lo:hi]` by byte offsets: panics outside `0 ≤ lo ≤ hi ≤ len(s)`.  A cut inside a UTF-8 sequence would give a string
+that is not valid UTF-8, which `String` cannot hold: it is reported as a (distinct) panic, and an agreement theorem shows that it
+does not occur. -/
+def slice (s : String) (lo hi : Int) : Outcome String :=
+  if lo < 0 ∨ hi < lo ∨ byteLen s < hi then .panic "runtime error: slice bounds out of range"
+  else
+    let rs := runes s
+    let boundary (o : Int) : Bool := decide (o = byteLen s) || rs.any (fun r => decide (r.1 = o))
+    if boundary lo && boundary hi then
+      .ok (String.ofList ((rs.filter (fun r => decide (lo ≤ r.1) && decide (r.1 < hi))).map (·.2)))
+    else .panic "slice inside a UTF-8 sequence (outside the model of valid strings)"
+
+/-- `strings.Index(s, sub)`: byte offset of the first occurrence, `-1` when there is none -/
+def indexFrom (sub : List Char) : Int → List Char → Int
+  | off, [] => if sub.isEmpty then off else -1
+  | off, c :: rest => if sub.isPrefixOf (c :: rest) then off else indexFrom sub (off + (c.utf8Size : Int)) rest
+
+def Index (s sub : String) : Int := indexFrom sub.toList 0 s.toList
+
+/-! `strings.Builder`: the text written so far -/
+namespace Builder
+@[simp] def WriteString (b s : String) : String := b ++ s
+@[simp] def WriteRune (b : String) (c : Char) : String := b.push c
+@[simp] def String (b : _root_.String) : _root_.String := b
+end Builder
+
 end Knut.GoSem.Strings
+
+namespace Knut.GoSem.Unicode
+/-- `unicode.IsDigit` (table regenerated from the Go toolchain on every run) -/
+def IsDigit (c : Char) : Bool := Knut.Syntax.isDigit c.toNat
+end Knut.GoSem.Unicode
